@@ -176,6 +176,11 @@ def grad_case(case):
                     if abs(d_an - ests[1]) > 1e-5 * sc + 1e-6 * max(1.0, abs(s0)):
                         v.append(violation("tangent_derivative_mismatch",
                                            {"P": P, "row": i, "a": a, "b": b, "analytic": d_an, "numeric": ests[1]}, **where))
+    # the object has now been evaluated at many neighbouring points: asked again at the original point it answers as it did when fresh
+    with np.errstate(all="ignore"):
+        s_again, G_again = g(P.copy(), Aff, return_grad=True)
+    if not (float(s_again) == float(s0) and np.array_equal(np.asarray(G_again), G)):
+        v.append(violation("answer_depends_on_what_the_object_saw_before", {"P": P, "first": G, "after_other_evaluations": G_again}, **where))
     region = _regions(g, P, Aff, dist, ovo)
     return {"v": v[:6], "nt": [case] if differentiable and scale > 1e-9 else [],
             "out": [(cls, ovo, K, n, region)], "stats": {"evals": 1, "differentiable": ndiff, "kinks": 1 - ndiff},
